@@ -37,6 +37,7 @@ struct Round {
   bool yield_in_cs = false;
   int guard_origin = 0;  // guards: 0 m.Guard*()/TryGuard*(), 1 deferred guard then g.Lock()/g.TryLock(), 2 adopt_lock after m.Lock*()
   int gap = 0;
+  int guard_moves = 0;  // guards, between the critical section and the release: 1 Release() + UnlockHere*() on the mutex, 2 move-construct, 3 Swap
   std::uint64_t invoke = 0, granted = 0, released = 0;
   bool try_failed = false;
 };
@@ -76,6 +77,7 @@ class Case final : public sim::CaseBase {
         rd.yield_in_cs = g.Flip();
         rd.gap = static_cast<int>(g.Draw(3));
         rd.guard_origin = IsGuard(f) ? static_cast<int>(g.Draw(3)) : 0;
+        rd.guard_moves = IsGuard(f) && g.Draw(3) == 2 ? 1 + static_cast<int>(g.Draw(3)) : 0;
         rs.push_back(rd);
       }
       rounds.push_back(rs);
@@ -93,6 +95,11 @@ class Case final : public sim::CaseBase {
         if (IsGuard(r.form)) {
           static const char* origins[] = {"mutex.Guard*()/TryGuard*()", "guard{m, defer_lock} then guard.Lock()/TryLock()", "guard{m, adopt_lock} after m.Lock*() (try forms: as 0)"};
           j.KV("release", r.explicit_unlock ? "UnlockHere()" : "guard destruction").KV("guard_made_by", origins[r.guard_origin]);
+          static const char* moves[] = {"", "guard.Release(), then UnlockHere*() on the mutex", "moved into a second guard (move constructor)",
+                                        "swapped into an empty guard (Swap)"};
+          if (r.guard_moves != 0) {
+            j.KV("before_release", moves[r.guard_moves]);
+          }
         }
         j.KV("yield_inside", r.yield_in_cs).End();
       }
@@ -317,8 +324,29 @@ yaclib::Future<> Worker(Case* c, M* m, int w, yaclib::IExecutor* e) {
           break;
         }
         CRITICAL_SECTION();
+        if (r.guard_moves == 1) {
+          SIM_PROBE("guard_released_by_hand");
+          M* released = g.Release();
+          if (released != m || g.OwnsLock() || g.Mutex() != nullptr) {
+            sim::Fail("GUARD_NOT_OWNING", "guard.Release() did not hand back the mutex / left the guard owning");
+          }
+          m->UnlockHere();
+          break;
+        }
+        yaclib::UniqueGuard<M> g2;
+        if (r.guard_moves == 2) {
+          SIM_PROBE("guard_move_constructed");
+          yaclib::UniqueGuard<M> tmp{std::move(g)};
+          g2.Swap(tmp);
+        } else if (r.guard_moves == 3) {
+          SIM_PROBE("guard_swapped");
+          g2.Swap(g);
+        }
+        if (r.guard_moves != 0 && (g.OwnsLock() || !g2.OwnsLock() || g2.Mutex() != m)) {
+          sim::Fail("GUARD_NOT_OWNING", "after moving/swapping an owning guard the source still owns or the target does not");
+        }
         if (r.explicit_unlock) {
-          g.UnlockHere();
+          (r.guard_moves != 0 ? g2 : g).UnlockHere();
         }
       } break;
       default: {
@@ -344,8 +372,29 @@ yaclib::Future<> Worker(Case* c, M* m, int w, yaclib::IExecutor* e) {
           break;
         }
         CRITICAL_SECTION();
+        if (r.guard_moves == 1) {
+          SIM_PROBE("guard_released_by_hand");
+          M* released = g.Release();
+          if (released != m || g.OwnsLock() || g.Mutex() != nullptr) {
+            sim::Fail("GUARD_NOT_OWNING", "guard.Release() did not hand back the mutex / left the guard owning");
+          }
+          m->UnlockHereShared();
+          break;
+        }
+        yaclib::SharedGuard<M> g2;
+        if (r.guard_moves == 2) {
+          SIM_PROBE("guard_move_constructed");
+          yaclib::SharedGuard<M> tmp{std::move(g)};
+          g2.Swap(tmp);
+        } else if (r.guard_moves == 3) {
+          SIM_PROBE("guard_swapped");
+          g2.Swap(g);
+        }
+        if (r.guard_moves != 0 && (g.OwnsLock() || !g2.OwnsLock() || g2.Mutex() != m)) {
+          sim::Fail("GUARD_NOT_OWNING", "after moving/swapping an owning guard the source still owns or the target does not");
+        }
         if (r.explicit_unlock) {
-          g.UnlockHere();
+          (r.guard_moves != 0 ? g2 : g).UnlockHere();
         }
       } break;
     }
